@@ -82,6 +82,7 @@ def parseLabel (toks : List String) : Option Label :=
   | ["expectCancel", x] => some (.expectCancel x.toNat!)
   | ["expectTimeout", x] => some (.expectTimeout x.toNat!)
   | ["expectCancelReq", x] => some (.expectCancelReq x.toNat!)
+  | ["hSkip", p, b, e, k] => some (.hSkip (parseProc p) b.toNat! e.toNat! k.toNat!)
   | _ => none
 
 def labelKind (l : Label) : String :=
@@ -102,7 +103,7 @@ def labelKind (l : Label) : String :=
   | .stopBegin .. => "stopBegin" | .stopNoop .. => "stopNoop" | .stopEnd .. => "stopEnd" | .rlExit .. => "rlExit"
   | .cancelRl .. => "cancelRl" | .rlCancelled .. => "rlCancelled" | .rlDropExit .. => "rlDropExit" | .expectBegin .. => "expectBegin"
   | .expectEnd _ g => s!"expectEnd.{if g.isSome then "match" else "timeout"}"
-  | .expectCancel .. => "expectCancel" | .expectTimeout .. => "expectTimeout" | .expectCancelReq .. => "expectCancelReq"
+  | .expectCancel .. => "expectCancel" | .expectTimeout .. => "expectTimeout" | .expectCancelReq .. => "expectCancelReq" | .hSkip .. => "hSkip"
 
 def statusStr : EStatus → String | .pending => "pending" | .started => "started" | .completed => "completed"
 def rstatusStr : Status → String | .pending => "pending" | .started => "started" | .completed => "completed" | .error => "error"
